@@ -38,11 +38,13 @@ def val(v):
     if t == 'int':
         return int(c)
     if t == 'float':
-        return float(c)
+        return float(c) + 0.0        # (a new float object every time)
     if t == 'bool':
         return bool(c)
     if t == 'str':
-        return {100: 'a', 101: 'x', 102: 'y', 103: 'k', 104: 'z', 110: '1', 111: LONG}.get(c, 's%d' % c)
+        if c == 111:
+            return ''.join(['L'] * 205)      # equal to LONG, a new string object every time
+        return {100: 'a', 101: 'x', 102: 'y', 103: 'k', 104: 'z', 110: '1'}.get(c, 's%d' % c)
     if t == 'none':
         return None
     if t == 'tup':
@@ -202,7 +204,8 @@ def run_group(klepto, group, km, mode, variant=None, cache=None):
     """mode: 'std' / 'safe' (cached with inf_cache) or 'keygen' (klepto.keygen decorator, keys only)
     returns a trace dict for KeyTrace"""
     kind = (variant or {}).get('kind', 'plain')      # plain function / functools.partial fixing k / method
-    variant = {k: v for k, v in (variant or {}).items() if k not in ('kind', 'bare', 'replay')} or None
+    shared = bool((variant or {}).get('shared'))     # every call twice: equal argument values being ONE object, then separate objects
+    variant = {k: v for k, v in (variant or {}).items() if k not in ('kind', 'bare', 'replay', 'shared')} or None
     func, src = make_func(group['sig'])
     raw, _ = make_func(group['sig'], 'raw')
     ignore = ignore_tuple(group['ign'])
@@ -276,11 +279,20 @@ def run_group(klepto, group, km, mode, variant=None, cache=None):
         call_f = f
     classes = Classes()
     events = []
-    for c in group['calls']:
-        args = [val(v) for v in c['p']]
+    for c, share in [(c, sh) for c in group['calls'] for sh in ((True, False) if shared else (False,))]:
+        memo = {}
+
+        def mk(v):
+            if not share:
+                return val(v)
+            k = json.dumps(v, sort_keys=True)
+            if k not in memo:
+                memo[k] = val(v)
+            return memo[k]
+        args = [mk(v) for v in c['p']]
         kwargs = {}
         for it in c['k']:
-            kwargs[it['n']] = val(it['v'])
+            kwargs[it['n']] = mk(it['v'])
         # the call that reaches the function: a partial's keywords unless the call overrides them
         eff = c
         if pkw:
@@ -310,7 +322,7 @@ def run_group(klepto, group, km, mode, variant=None, cache=None):
             e['kind'] = 'hit' if i1.hit > i0.hit else 'load' if i1.load > i0.load else 'miss' if i1.miss > i0.miss else 'none'
         events.append(e)
     return {'sig': sig_used, 'ign': group['ign'], 'km': km, 'cached': cached, 'events': events,
-            'meta': {'sid': group['sid'], 'iid': group['iid'], 'mode': mode, 'variant': dict(variant or {}, kind=kind), 'src': src,
+            'meta': {'sid': group['sid'], 'iid': group['iid'], 'mode': mode, 'variant': dict(variant or {}, kind=kind, shared=shared), 'src': src,
                      'ignore': [str(x) for x in (ignore if isinstance(ignore, tuple) else (ignore,))], 'kind': kind,
                      'bare': bool(group.get('bare'))}}
 
